@@ -235,11 +235,9 @@ func H12_src() {
 func H12_bytes() {
 	pre := []string{"", "a ", "a + ", "[", "f(", "\"", "1"}[sv.Choice("prefix", 7)]
 	// quick: two arbitrary positions on their own, one after each prefix;
-	// thorough: two after each prefix, three on their own
+	// thorough: two after each prefix, through both APIs and every back end
 	n := 1
 	switch {
-	case sv.Thorough() && pre == "":
-		n = 1 + sv.Choice("len", 3)
 	case sv.Thorough() || pre == "":
 		n = 1 + sv.Choice("len", 2)
 	}
